@@ -183,6 +183,10 @@ pub fn run(rep: &Report) -> serde_json::Value {
         atom("x"), int(1), OwnedTerm::Nil, OwnedTerm::List(vec![int(1), int(2)]), OwnedTerm::Tuple(vec![]), OwnedTerm::Tuple(vec![atom("a"), int(1)]),
         OwnedTerm::Tuple(vec![int(256), int(1)]), OwnedTerm::Tuple(vec![int(-1), int(1)]), OwnedTerm::Tuple(vec![bigv(false, 1 << 64)]), OwnedTerm::Tuple(vec![OwnedTerm::Float(1.0), int(1)]),
         OwnedTerm::Tuple(vec![bigv(false, 5), int(1)]), OwnedTerm::Binary(vec![1]), map_of(vec![(int(1), int(2))]),
+        // tags whose low 8, 16 or 32 bits look like a tag in range
+        OwnedTerm::Tuple(vec![int((1 << 32) + 2), atom(""), int(1)]), OwnedTerm::Tuple(vec![int(-(1i64 << 32) + 3), int(1), int(2), int(3)]), OwnedTerm::Tuple(vec![int(i64::MIN)]), OwnedTerm::Tuple(vec![int(i64::MAX), int(1)]),
+        OwnedTerm::Tuple(vec![int(1 << 32), int(1)]), OwnedTerm::Tuple(vec![int(257), int(1), int(2)]), OwnedTerm::Tuple(vec![int(65536 + 2), atom(""), int(1)]), OwnedTerm::Tuple(vec![int(256 + 1), int(1), int(2)]),
+        OwnedTerm::Tuple(vec![bigv(false, (1 << 32) + 1), int(1), int(2)]), OwnedTerm::Tuple(vec![bigv(true, 1), int(1)]), OwnedTerm::Tuple(vec![bigv(false, (1u128 << 64) + 2), atom(""), int(1)]),
     ];
     for t in &rejects {
         rep.add("evaluations", 1);
@@ -191,11 +195,25 @@ pub fn run(rep: &Report) -> serde_json::Value {
         let must_parse = matches!(&d, RefVal::Tuple(e) if !e.is_empty() && matches!(&e[0], RefVal::Int(i) if !i.neg && i <= &BigI::from_i64(255)));
         let r = ControlMessage::from_term(t);
         if must_parse && r.is_err() {
-            if matches!(t, OwnedTerm::Tuple(e) if matches!(e[0], OwnedTerm::BigInt(_))) { rep.add("bigint_tag_rejected_not_judged", 1); continue; }
             rep.violation("integer-tagged tuple rejected", json!({"term": d.short()}));
         }
         if !must_parse && r.is_ok() {
             rep.violation("a term that is not an integer-tagged tuple was accepted", json!({"term": d.short(), "parsed": format!("{:?}", r).chars().take(120).collect::<String>()}));
+        }
+    }
+    // a tag that arrives as a big integer (SMALL_BIG_EXT on the wire) is the same tag
+    for tag in 0..256i64 {
+        for rest in [vec![], vec![int(1), int(2)], vec![atom(""), int(1)], vec![int(1), int(2), int(3), int(4)]] {
+            rep.add("evaluations", 1);
+            let mut a = vec![int(tag)]; a.extend(rest.iter().cloned());
+            let mut b = vec![bigv(false, tag as u128)]; b.extend(rest.iter().cloned());
+            let (ra, rb) = (ControlMessage::from_term(&OwnedTerm::Tuple(a)), ControlMessage::from_term(&OwnedTerm::Tuple(b.clone())));
+            let same = match (&ra, &rb) { (Ok(x), Ok(y)) => vcore::refval::exact_eq(&denote(&x.to_term()), &denote(&y.to_term())), _ => false };
+            // and through the wire: the decoder yields a big integer for SMALL_BIG_EXT
+            let wired = erltf::encode(&OwnedTerm::Tuple(b)).ok().and_then(|bytes| erltf::decode(&bytes).ok()).map(|t| ControlMessage::from_term(&t).is_ok()).unwrap_or(false);
+            if !same || !wired {
+                rep.violation("a tag held as a big integer is not treated as that tag", json!({"tag": tag, "arity": rest.len() + 1, "integer_tag_parses": ra.is_ok(), "bigint_tag_parses": rb.is_ok(), "after_the_wire": wired}));
+            }
         }
     }
     // all tuples
